@@ -1,6 +1,7 @@
 package exec
 
 import (
+	"crypto/md5"
 	"go/types"
 	"math"
 
@@ -525,4 +526,64 @@ func (e *Engine) timerObjs() map[*Object]*vtimer {
 		e.p.timerObjs = map[*Object]*vtimer{}
 	}
 	return e.p.timerObjs
+}
+
+func init() {
+	// sort.Slice / sort.SliceStable: binary insertion sort calling the real less closure
+	sortSlice := func(e *Engine, g *Goroutine, a []Value, fn *ssa.Function, c *ssa.Call) (Value, bool) {
+		x := a[0].(Iface)
+		less := a[1].(*Closure)
+		if x.T == nil {
+			return nil, true
+		}
+		sl := x.V.(Slice)
+		st, ok := x.T.Underlying().(*types.Slice)
+		if !ok {
+			e.abort("unsupported", "sort.Slice on non-slice")
+		}
+		stride := e.sizeOf(st.Elem())
+		start, n := e.sliceWindow(sl, stride)
+		cells := func(i int) []Value { return sl.Obj.Cells[start+i*stride : start+(i+1)*stride] }
+		callLess := func(i, j int) bool {
+			r := e.callNested(g, less, []Value{e.c64(int64(i)), e.c64(int64(j))})
+			return e.Branch(r.(*term.T))
+		}
+		for i := 1; i < n; i++ {
+			// find insertion point in [0,i) for element i: first position p with less(i, p)
+			lo, hi := 0, i
+			for lo < hi {
+				mid := (lo + hi) / 2
+				if callLess(i, mid) {
+					hi = mid
+				} else {
+					lo = mid + 1
+				}
+			}
+			if lo < i {
+				tmp := make([]Value, stride)
+				copy(tmp, cells(i))
+				copy(sl.Obj.Cells[start+(lo+1)*stride:start+(i+1)*stride], sl.Obj.Cells[start+lo*stride:start+i*stride])
+				copy(cells(lo), tmp)
+			}
+		}
+		return nil, true
+	}
+	intrinsics["sort.Slice"] = sortSlice
+	intrinsics["sort.SliceStable"] = sortSlice
+	intrinsics["crypto/md5.Sum"] = func(e *Engine, g *Goroutine, a []Value, fn *ssa.Function, c *ssa.Call) (Value, bool) {
+		bs := e.sliceTerms(a[0].(Slice), 1)
+		in := make([]byte, len(bs))
+		for i, b := range bs {
+			if !b.IsConst() {
+				e.abort("unsupported", "md5.Sum of symbolic input")
+			}
+			in[i] = byte(b.Val)
+		}
+		sum := md5.Sum(in)
+		out := make(Agg, 16)
+		for i := range sum {
+			out[i] = e.tb.Const(8, uint64(sum[i]))
+		}
+		return out, true
+	}
 }
